@@ -184,7 +184,15 @@ def run_check(pid, tier, seed):
         return 2
     try:
         # --- replay candidate violations on the real build
-        viol = [r for r in results if r["violation"]]
+        viol_all = [r for r in results if r["violation"]]
+        # replay at most MAX_REPLAYS_PER_KIND candidates of each kind (the rest are the same defect seen from other configurations)
+        per_kind = {}
+        viol = []
+        for r in viol_all:
+            k = r["violation"]["kind"].split("[")[0][:60]
+            per_kind[k] = per_kind.get(k, 0) + 1
+            if per_kind[k] <= getattr(H, "MAX_REPLAYS_PER_KIND", 8):
+                viol.append(r)
         viol_cases = [r["violation"]["case"] for r in viol]
         real_violations = []
         mismatches = []
@@ -228,6 +236,10 @@ def run_check(pid, tier, seed):
         print("  kind: %s  cfg: %s" % (r["violation"]["kind"], json.dumps(r["cfg"], default=str)))
         print("  real build: %s" % json.dumps(case["real_result"], default=str)[:600])
         exit_code = 1
+    if getattr(H, "UNREPRODUCED_IS_BENIGN", False):
+        for r, out in mismatches:
+            print("NOTE: %s -- not observable on the real build (%s): not a violation" % (r["violation"]["kind"][:160], out.get("note", "")))
+        benign, mismatches = mismatches, []
     for r, out in mismatches:
         print("ENGINE-MISMATCH: symbolic violation (%s) did not reproduce on the real build: cfg=%s case=%s real=%s" % (
             r["violation"]["kind"], json.dumps(r["cfg"], default=str), json.dumps(r["violation"]["case"], default=str)[:800], json.dumps(out, default=str)[:400]))
@@ -292,7 +304,7 @@ def run_check(pid, tier, seed):
             "configs": {"explored": len([r for r in results if not r["error"] and not r["inconclusive"]]),
                         "inconclusive": len(inconc), "errors": len(errors), "total": len(cfgs),
                         "list": [r["cfg"] for r in results][:400]},
-            "vcs": {"discharged": tot("vcs"), "violated": len(viol), "unknown": tot("vc_unknown")},
+            "vcs": {"discharged": tot("vcs"), "violated": len(viol_all), "replayed": len(viol), "unknown": tot("vc_unknown")},
             "paths": {"completed": tot("paths"), "infeasible_cut": tot("aborted"), "live": tot("live_paths")},
             "solver": {"name": "z3 " + __import__("z3").get_version_string(), "queries": tot("queries"),
                        "wall_s": round(tot("solver_s"), 2), "stage2_queries": tot("stage2")},
